@@ -861,7 +861,10 @@ class Run:
         if isinstance(base, ClassV):
             return base  # Generic[...] subscription: Stack[str] is Stack
         if isinstance(base, tuple) and isinstance(idx, int) and not (base and isinstance(base[0], str) and base[0].startswith("$")):
-            return base[idx]
+            try:
+                return base[idx]
+            except IndexError:
+                raise PyExc("IndexError", "tuple index out of range") from None
         if isinstance(base, str) and isinstance(idx, int):
             try:
                 return base[idx]
@@ -946,7 +949,8 @@ class Run:
     def call(self, f: Any, args: list[Any], kwargs: dict[str, Any], n: ast.AST | None) -> Any:  # noqa: PLR0911
         if not isinstance(f, ClassV) and any(isinstance(a, tuple) and a and a[0] == "$star" for a in args):
             # star-args reach only constructor contracts and external-call contracts of the spec (which must accept the marker)
-            if not (isinstance(f, ModuleV) and getattr(self.spec, "call_external", None) is not None):
+            is_super = isinstance(f, BoundMethod) and isinstance(f.recv, tuple) and f.recv and f.recv[0] == "$super"
+            if not ((isinstance(f, ModuleV) and getattr(self.spec, "call_external", None) is not None) or is_super):
                 raise OutOfDialect("star-args", n)
         if isinstance(f, LocalFn):
             h = getattr(self.spec, "call_local", None)
